@@ -48,6 +48,11 @@ type feCase struct {
 	DelayMode   string
 	CloseAfter  int // ms, -1 = never
 	EstimatedMs int
+	// targeted classes (see feGenLongQueue / feGenCancelQueue); the random generator leaves them at their zero values
+	Class      string // "" (random) | long-queue | cancel-queue
+	DeployMs   int    // > 0: every deployment of an item plugin takes this long ...
+	DeployHard bool   // ... and does not watch its context while it works (like go.flow.arcalot.io/testdeployer)
+	ClosureMs  int    // >= 0: closure_wait_timeout of the sub-workflow's step (ms); -1 = omitted (provider default)
 }
 
 const feItemObject = `    Item:
@@ -66,6 +71,9 @@ func feSubYAML(c *feCase) string {
 	b.WriteString("version: v0.2.0\ninput:\n  root: Item\n  objects:\n" + feItemObject)
 	b.WriteString("steps:\n  op:\n    plugin: {src: \"" + feSrc + "\", deployment_type: \"builtin\"}\n    step: op\n")
 	b.WriteString("    input: {s: !expr $.input.s, i: !expr $.input.i}\n")
+	if c.ClosureMs >= 0 {
+		fmt.Fprintf(&b, "    closure_wait_timeout: %d\n", c.ClosureMs)
+	}
 	b.WriteString("outputs:\n  success: {s: !expr $.steps.op.outputs.success.s, i: !expr $.steps.op.outputs.success.i}\n")
 	if c.DeclAlt {
 		b.WriteString("  alt: {v: !expr $.steps.op.outputs.alt.s}\n")
@@ -178,7 +186,7 @@ func feSize(r *rng, max int) int {
 }
 
 func feGen(r *rng, tier string, closeMode bool) *feCase {
-	c := &feCase{CloseAfter: -1}
+	c := &feCase{CloseAfter: -1, ClosureMs: -1}
 	max := 40
 	if tier == "thorough" {
 		max = 200
@@ -244,6 +252,79 @@ func feGen(r *rng, tier string, closeMode bool) *feCase {
 	return c
 }
 
+// ---- targeted classes --------------------------------------------------------------------------------------------------------
+//
+// long-queue (C13, "all per-item outcomes and durations"): more items than `parallelism`, the items holding the slots run
+// for `holdMs`, so the others stay QUEUED behind the limit for that long.  Whatever a queued item does while it waits
+// (log, poll, time out), it must not run without a slot.  `holdMs` is chosen by the orchestrator: several seconds, and
+// longer than every timer constant the fact extractor finds inside the foreach provider.
+func feGenLongQueue(r *rng, holdMs int, variant int) *feCase {
+	c := &feCase{CloseAfter: -1, ClosureMs: -1, Class: "long-queue", DelayMode: "long", ParMode: "literal",
+		DeclAlt: r.chance(1, 2), DeclErr: r.chance(1, 2)}
+	c.Par = 1
+	if variant%3 == 2 {
+		c.Par = 2
+	}
+	short := func(j int) feItem {
+		return feItem{Key: fmt.Sprintf("q%d", j), I: int64(r.intn(1000)), Outcome: "success", DelayMs: r.intn(20)}
+	}
+	switch variant % 3 {
+	case 0:
+		// the slot(s) are held by the first item(s); 2..3 short items queue behind them
+		n := c.Par + 2 + r.intn(2)
+		for j := 0; j < n; j++ {
+			it := short(j)
+			if j < c.Par {
+				it.DelayMs = holdMs + r.intn(200)
+			}
+			c.Items = append(c.Items, it)
+		}
+		c.EstimatedMs = holdMs + 300
+	case 1:
+		// queue waits add up: three items of holdMs/2 each, the last one waits a full holdMs
+		for j := 0; j < 3; j++ {
+			it := short(j)
+			it.DelayMs = holdMs/2 + r.intn(100)
+			c.Items = append(c.Items, it)
+		}
+		c.EstimatedMs = 3*holdMs/2 + 300
+	default:
+		// parallelism 2: a short item first, then two long ones, then short ones (one of them fails)
+		n := 5 + r.intn(2)
+		for j := 0; j < n; j++ {
+			it := short(j)
+			if j == 1 || j == 2 {
+				it.DelayMs = holdMs + r.intn(200)
+			}
+			c.Items = append(c.Items, it)
+		}
+		c.Items[n-1].Outcome = r.pick(feFailKinds)
+		c.EstimatedMs = holdMs + 300
+	}
+	return c
+}
+
+// cancel-queue (C06, "for all workflows and every instant of cancellation"): MANY more items than `parallelism`, every
+// item runs until it is told to stop, deployments take `DeployMs` and cannot be interrupted, the sub-workflow's step has a
+// small closure timeout; the caller's context is cancelled while the first items deploy / execute and all the others are
+// queued.  The time to return after the cancellation is bounded by grace periods + closure timeouts + the deployments in
+// flight - it must not grow with the number of queued items, and no queued item may begin (deploy) after the cancel.
+func feGenCancelQueue(r *rng, tier string) *feCase {
+	c := &feCase{ClosureMs: 100, Class: "cancel-queue", DelayMode: "hang", ParMode: "literal", DeployHard: true}
+	c.Par = 1 + r.intn(3)
+	n := 20*c.Par + 40 + r.intn(20)
+	if tier == "thorough" && r.chance(1, 2) {
+		n *= 2
+	}
+	c.DeployMs = 250 + r.intn(100)
+	for j := 0; j < n; j++ {
+		c.Items = append(c.Items, feItem{Key: fmt.Sprintf("c%d", j), I: int64(r.intn(1000)), Outcome: "success", DelayMs: 60000})
+	}
+	c.CloseAfter = c.DeployMs/3 + r.intn(c.DeployMs)
+	c.EstimatedMs = c.CloseAfter
+	return c
+}
+
 func feInput(c *feCase) map[string]any {
 	conv := func(it feItem) map[string]any {
 		m := map[string]any{"s": it.Key, "i": it.I}
@@ -280,6 +361,9 @@ func feBehaviours(c *feCase) map[string]Behaviour {
 		}
 	}
 	walk(c.Items)
+	if c.DeployMs > 0 {
+		b[feSrc] = Behaviour{Outcome: "success", DeployDelayMs: c.DeployMs}
+	}
 	return b
 }
 
@@ -289,6 +373,8 @@ func execForeachCase(caseID string, c *feCase) map[string]any {
 		s.set(k, v)
 	}
 	currentScript.Store(s)
+	itemDeployHard.Store(c.DeployHard)
+	defer itemDeployHard.Store(false)
 	base := runtime.NumGoroutine()
 	reg, f, err := newItemRegistry()
 	if err != nil {
@@ -306,7 +392,8 @@ func execForeachCase(caseID string, c *feCase) map[string]any {
 		"n": len(c.Items), "items": c.Items, "par_mode": c.ParMode, "parallelism": c.Par,
 		"inner_mode": c.InnerMode, "inner_parallelism": c.InnerPar, "decl_alt": c.DeclAlt, "decl_err": c.DeclErr,
 		"decl_failed": c.DeclFailed, "delay_mode": c.DelayMode, "close_after_ms": c.CloseAfter, "src": feSrc,
-		"input": encVal(input)}
+		"input": encVal(input), "class": c.Class, "deploy_ms": c.DeployMs, "deploy_hard": c.DeployHard,
+		"closure_ms": c.ClosureMs}
 	s.probe.Store(true)
 	prepared, err := prepareYAML(reg, f, text, files)
 	s.probe.Store(false)
@@ -386,8 +473,12 @@ func execForeachCase(caseID string, c *feCase) map[string]any {
 
 func cmdForeach(args []string) int {
 	var closeMode bool
+	var nLong, longMs, nQueue int
 	c, _ := parseCommon("foreach", args, func(fs *flag.FlagSet) {
 		fs.BoolVar(&closeMode, "close", false, "cancel the parent context at a random instant")
+		fs.IntVar(&nLong, "long", 0, "number of long-queue cases (items queued behind the parallelism limit for -longms)")
+		fs.IntVar(&longMs, "longms", 6000, "how long the slot-holding items of a long-queue case run (ms)")
+		fs.IntVar(&nQueue, "queue", 0, "with -close: number of cancel-queue cases (many more items than parallelism, cancelled while queued)")
 	})
 	w := openOut(c.out)
 	defer w.close()
@@ -400,6 +491,15 @@ func cmdForeach(args []string) int {
 			mode = "close"
 		}
 		w.emit(execForeachCase(fmt.Sprintf("foreach-%s-%d-%d", mode, c.seed, i), fc))
+	}
+	if !closeMode {
+		for i := 0; i < nLong; i++ {
+			w.emit(execForeachCase(fmt.Sprintf("foreach-long-%d-%d", c.seed, i), feGenLongQueue(r.fork(), longMs, i+int(c.seed))))
+		}
+	} else {
+		for i := 0; i < nQueue; i++ {
+			w.emit(execForeachCase(fmt.Sprintf("foreach-queue-%d-%d", c.seed, i), feGenCancelQueue(r.fork(), c.tier)))
+		}
 	}
 	return 0
 }
